@@ -697,7 +697,7 @@ RETRIES = [0.1, 1.0, math.inf]
 
 
 def plan(tier: str, seed: int) -> list[dict]:
-    iters = 200 if tier == "quick" else 6000
+    iters = 200 if tier == "quick" else 20000
     return [{"seed": seed * 1000 + k, "iters": iters} for k in range(16)]
 
 
